@@ -32,11 +32,11 @@ def corpus():
 def run(rep):
     quick = rep.tier == "quick"
     # (a) the model
-    res = tlc.run(rep.pid, "Slots", SLOTS_CFG, env={"TIER": rep.tier}, timeout=1200, tag="slots", heap="6g")
+    res = tlc.run(rep.pid, "Slots", SLOTS_CFG, env={"TIER": rep.tier}, timeout=1200, tag="slots", heap="4g")
     rep.add_tlc("Slots (all permutations of locals / cell_vars / free_vars of 5 closure programs, wiring by name)", res)
     rep.spaces.append({"space": "Slots: layouts x steps of the abstract closure programs", "cases": res.distinct, "complete": True})
     # vacuity guard: the same model with closures wired by position must violate LayoutIndependent
-    bad = tlc.run(rep.pid, "Slots", SLOTS_CFG, env={"TIER": "quick", "WIRING": "index"}, timeout=600, tag="slots_selftest", heap="6g")
+    bad = tlc.run(rep.pid, "Slots", SLOTS_CFG, env={"TIER": "quick", "WIRING": "index"}, timeout=600, tag="slots_selftest", heap="4g")
     if "LayoutIndependent" not in bad.violated:
         raise Machinery("Slots self-test: index-based wiring was not rejected (%s)" % (bad.violated or bad.errors[:2]))
     rep.notes["slots_selftest"] = "index-based wiring violates LayoutIndependent after %d states" % bad.distinct
@@ -56,10 +56,20 @@ def run(rep):
     obs = {it["id"]: [] for it in items}
     cases = [dict((k, v) for k, v in it.items() if k in ("id", "prog", "src")) for it in items]
 
+    def wall_hang(r):
+        return r["out"].get("o") == "hang" and "wall" in str(r["out"].get("why", ""))
+
     def one_seed(seed):
         # each hash seed in processes of its own
-        return seed, engine.run_cases(rep.pid, cases, driver="checks.c15_driver:driver", hashseed=str(seed), tag="eng_seed%d" % seed,
-                                      procs=1 if nseeds >= 16 else None)
+        rs = engine.run_cases(rep.pid, cases, driver="checks.c15_driver:driver", hashseed=str(seed), tag="eng_seed%d" % seed,
+                              procs=1 if nseeds >= 16 else None)
+        # a wall-clock watchdog verdict (overloaded machine) is re-run alone before it counts (DESIGN 3.4)
+        again = [dict(c, wall=900.0) for c in cases if any(r["id"] == c["id"] and wall_hang(r) for r in rs)]
+        if again:
+            redo = {r["id"]: r for r in engine.run_cases(rep.pid, again, driver="checks.c15_driver:driver", hashseed=str(seed),
+                                                         tag="eng_seed%d_rerun" % seed, procs=1)}
+            rs = [redo.get(r["id"], r) for r in rs]
+        return seed, rs
 
     with ThreadPoolExecutor(max_workers=16) as ex:
         for seed, rs in ex.map(one_seed, range(nseeds)):
@@ -82,13 +92,16 @@ def run(rep):
         for rs in ex.map(one_batch, batches):
             for r in rs:
                 b, iid = r["id"].split(":", 1)
+                if wall_hang(r):            # overloaded machine: this observation is not comparable (counted, not judged)
+                    rep.notes["batch_observations_dropped_wall_clock"] = rep.notes.get("batch_observations_dropped_wall_clock", 0) + 1
+                    continue
                 obs[iid].append({"src": b, "log": r["log"], "out": r["out"], "lay": r["lay"]})
     # EqJudge
     eq_recs = []
     for it in items:
         isast = "prog" in it
         eq_recs.append({"id": it["id"], "ast": isast, "prog": it["prog"] if isast else {"body": []}, "devs": [], "obs": obs[it["id"]]})
-    verdicts, st, tr, wall = tlc.judge(rep.pid, "C15", eq_recs, EQ_CFG, shards=16, tag="judge_eq")
+    verdicts, st, tr, wall = tlc.judge(rep.pid, "C15", eq_recs, EQ_CFG, shards=c05.SHARDS, tag="judge_eq")
     rep.add_judge(sum(len(r["obs"]) for r in eq_recs), st, tr)
     got = {v["id"]: v for v in verdicts}
     if len(got) != len(eq_recs):
